@@ -387,7 +387,7 @@ pub struct JsonCase {
 }
 
 fn json_strat(_t: Tier) -> BoxedStrategy<JsonCase> {
-  (prop_oneof![Just(31u8), Just(32u8), Just(33u8), 0u8..70], any::<u64>(), 0u8..6).prop_map(|(len, fill, broken)| JsonCase { len, fill, broken }).boxed()
+  (prop_oneof![Just(31u8), Just(32u8), Just(33u8), 0u8..70], any::<u64>(), 0u8..9).prop_map(|(len, fill, broken)| JsonCase { len, fill, broken }).boxed()
 }
 
 /// JSON texts with broken base64, 31/33-byte payloads, wrong types: Err, never a partial value
@@ -404,12 +404,19 @@ fn json_oracle(c: &JsonCase, st: &mut Stats) -> Result<(), String> {
     _ => {}
   }
   let text = match c.broken {
+    // objects that do not carry an output at all
+    6 => "{}".to_string(),
+    7 => "{\"proof\":null}".to_string(),
+    8 => format!("{{\"error\":\"{b64}\"}}"),
     4 => format!("{{\"output\":{},\"proof\":null}}", c.len),
     5 => format!("{{\"output\":[{}],\"proof\":null}}", payload.iter().map(|x| x.to_string()).collect::<Vec<_>>().join(",")),
     _ => format!("{{\"output\":\"{b64}\",\"proof\":null}}"),
   };
   st.evals(1);
   let got = no_panic(|| serde_json::from_str::<Evaluation>(&text)).map_err(|p| format!("JSON decode panicked: {p}"))?;
+  if c.broken >= 6 {
+    st.class("json:no-output-member");
+  }
   let well_formed = c.len == 32 && (c.broken == 0 || c.broken == 3 && !BASE64_STANDARD.encode(&payload).contains('A'));
   // a complete 32-number array in place of the base64 string: accepting it is a choice, not a partial value
   let either = c.len == 32 && c.broken == 5;
@@ -527,7 +534,7 @@ pub fn property() -> Property {
   Property {
     id: "C15",
     level: "exploration",
-    rule: "round trips: public keys for tag-set sizes 0..256 (all 257 sizes enumerated in thorough, a spread in quick) with proofs / evaluations / points from generated requests: restored == original, re-serialisation identical, documented layout (32-byte base, u64 count, sorted (u8, point) entries; proof = c || s), and all 12 combinations of {original, restored} key x evaluation x point verify. bytes: every strict prefix of valid key and proof encodings is refused; lengths limit-2..limit+2 for both limits; mutated keys (count field values, undecodable points, tags, appended bytes), unsorted and repeated-tag entry lists, arbitrary 64-byte proofs, raw strings - an accepted value must equal what an independent reader of the documented form extracts from the same bytes (a repeated tag takes its last entry), bytes that do not hold a complete value must be refused. JSON: 31/32/33-byte and other payloads, broken base64, wrong types for evaluations; point texts as arrays of 0..70 numbers (one possibly not a byte), as strings, alone and inside a list of points - only a text that spells exactly 32 bytes may come back as a point. Non-trivial: tag-set size >= 2, a string within 2 bytes of a limit, a truncation or any refused string.",
+    rule: "round trips: public keys for tag-set sizes 0..256 (all 257 sizes enumerated in thorough, a spread in quick) with proofs / evaluations / points from generated requests: restored == original, re-serialisation identical, documented layout (32-byte base, u64 count, sorted (u8, point) entries; proof = c || s), and all 12 combinations of {original, restored} key x evaluation x point verify. bytes: every strict prefix of valid key and proof encodings is refused; lengths limit-2..limit+2 for both limits; mutated keys (count field values, undecodable points, tags, appended bytes), unsorted and repeated-tag entry lists, arbitrary 64-byte proofs, raw strings - an accepted value must equal what an independent reader of the documented form extracts from the same bytes (a repeated tag takes its last entry), bytes that do not hold a complete value must be refused. JSON: 31/32/33-byte and other payloads, broken base64, wrong types, objects without an output member for evaluations; point texts as arrays of 0..70 numbers (one possibly not a byte), as strings, alone and inside a list of points - only a text that spells exactly 32 bytes may come back as a point. Non-trivial: tag-set size >= 2, a string within 2 bytes of a limit, a truncation or any refused string.",
     assumptions: vec![
       "bincode's tolerance of trailing bytes after a complete value is not fixed by the property and is not asserted",
       "Evaluation is deserialised with serde_json::from_str / from_slice, as every caller in the repository does (the base64 adapter borrows the string)",
